@@ -18,6 +18,7 @@
 #include <optional>
 
 static long g_next_id = 0;
+static bool g_chain = false;   // config suffix +c: the deleter of a first-generation node retires a child node (a deleter that uses the reclaimer itself)
 static constexpr int NG = 4, NC = 4;
 
 template <class R> struct NodeC;
@@ -27,11 +28,22 @@ template <class R> struct DelC {
 };
 template <class R> struct NodeC : R::template enable_concurrent_ptr<NodeC<R>, 2, DelC<R>> {
   static constexpr bool custom = true;
-  long id; unsigned magic = 0xA11CE;
+  long id; unsigned magic = 0xA11CE; int gen = 0;
   NodeC() : id(++g_next_id) { xv::ev("ev", "alloc", 0, id); }
   ~NodeC() { magic = 0xDEAD; xv::ev("ev", "destroy", 0, id); }
 };
-template <class R> void DelC<R>::operator()(NodeC<R>* n) const { xv::ev("ev", "deleter", tag, n->id); delete n; }
+template <class R> void DelC<R>::operator()(NodeC<R>* n) const {
+  xv::ev("ev", "deleter", tag, n->id);
+  if (g_chain && n->gen == 0) {
+    // destroying a parent retires its child: the reclaimer is re-entered from inside a deleter (from a scan, an epoch change, a thread exit ...)
+    using CP = typename R::template concurrent_ptr<NodeC<R>>;
+    NodeC<R>* c = new NodeC<R>; c->gen = 1; long cid = c->id;
+    typename CP::guard_ptr g{typename CP::marked_ptr(c)};
+    xv::ev("ev", "retire", 0, cid);
+    g.reclaim(DelC<R>{cid});
+  }
+  delete n;
+}
 template <class R> struct NodeD : R::template enable_concurrent_ptr<NodeD<R>, 2> {
   static constexpr bool custom = false;
   long id; unsigned magic = 0xA11CE;
@@ -211,7 +223,7 @@ xv::Scenario make_scn(const drv::Program& p, bool gs) {
     N* live = new N; typename C::CP dc(live);
     for (int round = 0; round < 3; round++) {
       for (int i = 0; i < 24; i++) { G g; g.acquire(dc, std::memory_order_acquire); g.reset(); }
-      N* d = new N; G g{MP(d)}; xv::ev("ev", "retire", 0, d->id); C::do_reclaim(g, d->id);
+      N* d = new N; if constexpr (N::custom) d->gen = 1; G g{MP(d)}; xv::ev("ev", "retire", 0, d->id); C::do_reclaim(g, d->id);
     }
     for (int i = 0; i < 24; i++) { G g; g.acquire(dc, std::memory_order_acquire); g.reset(); }
     xv::dump_alloc_sites();
@@ -223,12 +235,14 @@ xv::Scenario make_scn(const drv::Program& p, bool gs) {
 int main(int argc, char** argv) {
   return xv::explore_main(argc, argv, [](const std::string& ps) {
     drv::Program p = drv::parse(ps);
-    std::string name = p.config; bool custom = false, gs = false;
+    std::string name = p.config; bool custom = false, gs = false, chain = false;
     for (;;) {
       if (name.size() > 2 && name.substr(name.size() - 2) == "+d") { custom = true; name = name.substr(0, name.size() - 2); }
       else if (name.size() > 2 && name.substr(name.size() - 2) == "+g") { gs = true; name = name.substr(0, name.size() - 2); }
+      else if (name.size() > 2 && name.substr(name.size() - 2) == "+c") { chain = true; name = name.substr(0, name.size() - 2); }
       else break;
     }
+    g_chain = chain;
     return rc::with_reclaimer(name, [&](auto tg) -> xv::Scenario {
       using T = decltype(tg); using R = typename T::type;
       if constexpr (T::custom_deleter) { if (custom) return make_scn<R, NodeC<R>, T::K>(p, gs); }
